@@ -60,7 +60,7 @@ func writeManifest(verif string) {
 			"level_claimed": map[string]any{
 				"category":   "other",
 				"text":       "Structural necessary conditions decided statically on every path of the analysed functions: " + pr.Decides + " Not decided: " + pr.NotDecided,
-				"design_ref": "DESIGN.md §4 " + id,
+				"design_ref": "DESIGN.md A.3 " + id,
 			},
 			"level_note": "Trusted: Go type checker, x/tools go/ssa v0.29.0, the tabled idioms (nil-preserving wrappers, projection methods) confirmed by reading. Decides the named structural clauses only, not the behavioural statement over all inputs/schedules/histories.",
 			"technique":  tech,
